@@ -37,6 +37,8 @@ structure ImgHdr where
   buf16 : Bool := true
   /-- encoded ICC stream to embed (already entropy coded bits), `none` = enum colour encoding -/
   icc : Option (List Bool) := none
+  /-- `xyb_encoded`: the Modular channels are Y, X, B-Y and the decoder converts to RGB itself -/
+  xyb : Bool := false
   deriving Repr, Inhabited
 
 /-- greedy LZ77 parse of the encoded ICC bytes (`dist_multiplier = 0`, distance = value + 1).
@@ -138,7 +140,7 @@ def writeImageHeader (h : ImgHdr) : BW :=
   let w := w.bool h.buf16
   let w := w.u32 [.const 0, .const 1, .bits 2 4, .bits 1 12] h.ecs.length
   let w := h.ecs.foldl writeEc w
-  let w := w.bool false                 -- xyb_encoded
+  let w := w.bool h.xyb                 -- xyb_encoded
   -- colour encoding
   let w :=
     match h.icc with
@@ -293,7 +295,7 @@ def writeFrameHeader (img : ImgHdr) (f : FrameHdr) : BW :=
   let w := w.bool true                    -- encoding = Modular
   -- flags: NOISE = 1, PATCHES = 2, SPLINES = 16
   let w := w.u64 ((if f.patches.isEmpty then 0 else 2) + (if f.splines.isSome then 16 else 0) + (if f.noise.isSome then 1 else 0))
-  let w := w.bool false                   -- do_ycbcr (xyb_encoded is false)
+  let w := if img.xyb then w else w.bool false   -- do_ycbcr (coded only when the image is not XYB encoded)
   let w := w.u32 upsDist f.upsampling
   let w := (List.range img.ecs.length).foldl (fun w i => w.u32 upsDist (f.ecUpsampling.getD i 1)) w
   let w := w.u 2 f.groupShift
